@@ -370,7 +370,7 @@ impl Prop for C04 {
         ]
     }
     fn random_cases(&self, tier: Tier) -> u64 {
-        tier.pick(24_000, 700_000)
+        tier.pick(60_000, 700_000)
     }
     fn max_bytes(&self) -> usize {
         2500
